@@ -10,7 +10,7 @@ Oracle : (a) replay - for every lifetime, the tail items of that lifetime == the
 """
 import random
 
-from ..common import Check, Outcome, bootstrap, norm
+from ..common import Check, Outcome, bootstrap, norm, PRELUDE_RULE
 from .. import gen, progs
 from ..muxmon import lifetimes
 
@@ -63,6 +63,7 @@ class C02(Check):
             'merge, nested group_by/roll/split/time_split -, optionally under an outer group_by with 2-3 interleaved keys; input 0..40 ints, long enough to wrap the roll slot ring '
             'several times). 30% of the cases are built around the history the property names: a tee branch silent in one lifetime and active in the next. '
             'Every 120th case runs at scale: windows of 257-400 items, 300 groups, take/batch/lag 257+ on 700-1300 items. non-trivial = some key slot served >= 2 lifetimes with items; distinct = hash of the case')
+    RULE += PRELUDE_RULE
     ASSUMPTIONS = ['all parameters of a context are fixed at generation time, so the replayed pipeline is the same program',
                    'replay uses the same multiplexed code path (with_memory_store on the lifetime\'s items): multiplexed-only operators have no plain form',
                    'values are snapshotted when they pass the taps']
